@@ -953,6 +953,13 @@ func (s *clientSocket) onClose(reason Reason) {
 	s.debug.Log("Going to close the socket. Reason", reason)
 
 	s.stateMu.Lock()
+	if s.state == clientSocketConnStateDisconnected {
+		// Already reported. A DISCONNECT packet and the close of the connection that
+		// follows it (or Disconnect() racing with either) must not fire the disconnect
+		// handlers twice for the same disconnection.
+		s.stateMu.Unlock()
+		return
+	}
 	s.state = clientSocketConnStateDisconnected
 	s.stateMu.Unlock()
 	s.setID("")
